@@ -85,6 +85,9 @@ def build(kind, a, b, rng):
         link("fw", 1, "ext0", 1); link("fw", 3, "dmz0", 1); link("sw1", 1, "int0", 1); link("sw3", 1, "deep0", 1)
     for h in ip:
         nodes.append(host(h, ip[h], gws[h], ip[b] if h != b else ip[a], h == a))
+    for n in nodes:
+        # a shutdown is not instantaneous: during the SHUTTING_DOWN ticks the node is already "not ON"
+        n["shut_down_duration"] = rng.choice([0, 2, 3])
     cfg = {"io_settings": dict(world.IO_OFF), "game": {"max_episode_length": 64, "ports": ["ARP", "DNS", "HTTP", "POSTGRES_SERVER", "SSH", "FTP"], "protocols": ["ICMP", "TCP", "UDP"]},
            "agents": [], "simulation": {"network": {"nodes": nodes, "links": links}}}
     return cfg, ip
@@ -96,7 +99,7 @@ ZONE = {"ext0": "external", "int0": "internal", "deep0": "internal", "dmz0": "dm
 def mechanisms(kind, a, b):
     """total blocks available for the placement: (name, how)."""
     ms = [("victim-off", None), ("victim-interface-disabled", None), ("attacker-interface-disabled", None), ("victim-link-removed", None)]
-    shapes = ["any-any", "src-exact", "src-wildcard", "dst-exact", "src-dst", "implicit"]
+    shapes = ["any-any", "src-exact", "src-wildcard", "dst-exact", "src-dst", "implicit", "src-host-wildcard", "src-any-wildcard"]
     if kind == "lan":
         ms += [("switch-off", "sw1"), ("switch-port-disabled", None)]
     elif kind == "routed":
@@ -248,6 +251,10 @@ def apply_block(run, kind, mech, arg, rng_vals):
             kw = {"dst_ip_address": b_ip}
         elif shape == "src-dst":
             kw = {"src_ip_address": a_ip, "dst_ip_address": b_ip}
+        elif shape == "src-host-wildcard":          # wildcard 0.0.0.0 = exactly this host
+            kw = {"src_ip_address": a_ip, "src_wildcard_mask": "0.0.0.0"}
+        elif shape == "src-any-wildcard":           # wildcard 255.255.255.255 = any address, whatever the base
+            kw = {"src_ip_address": "1.2.3.4", "src_wildcard_mask": "255.255.255.255"}
         if shape == "implicit" and acl.implicit_action == ACLAction.PERMIT:
             acl.remove_rule(20)
             acl.add_rule(action=ACLAction.DENY, position=23)          # a list that permits by default: deny-all as its last rule
